@@ -69,7 +69,7 @@ FE(b) == FrontEnd(b.target, b.attr, b.macro, b.feature)
 AllToks == UNION { WF[k] : k \in DOMAIN WF } \cup
            { Eq("no_deps", "false"), Eq("export", "false"), Eq("mockall", "true"), Eq("debug", "true"), Bare("debug"),
              Eq("unimock", "maybe"), Bare("mock_api"), Bare("?Sized"), Bare("bogus"), Bare("delegate_by"),
-             Eq("delegate_by", "Borrow"), Eq("delegate_by", "Custom") }
+             Eq("delegate_by", "Borrow"), Eq("delegate_by", "Custom"), Eq("delegate_by", "type") }
 TableKey(t) == IF t.k \in {"?Send", "?Sized"} THEN t.k ELSE t.k
 WellFormed(t) == ParseOpt(t).err = ""
 \* on a trait `delegate_by = Custom` needs a target trait and vice versa: give it one so that only the option is judged
